@@ -22,6 +22,7 @@ import (
 	"github.com/alicebob/miniredis/v2/server"
 	"github.com/zeromicro/go-zero/core/logx"
 	"github.com/zeromicro/go-zero/core/stores/redis"
+	"github.com/zeromicro/go-zero/core/stringx"
 	"verifh/hx"
 )
 
@@ -30,6 +31,10 @@ type Case struct {
 	Keys    []string `json:"keys"`
 	InstKey []int    `json:"inst_key"` // key index of every RedisLock object
 	Ops     [][]any  `json:"ops"`
+	// the process-wide random source behind the lock ids: stringx.Seed(seed) is called before the object with
+	// the given index is constructed ([[index, seed], ...]); Conc: the objects are constructed concurrently
+	Seeds [][]int64 `json:"seeds"`
+	Conc  bool      `json:"conc"`
 }
 
 type Out struct {
@@ -268,8 +273,32 @@ func runCase(c Case) (out Out) {
 	mr.Server().SetPreHook(f.hook)
 	store := redis.New(mr.Addr())
 	locks := make([]*redis.RedisLock, len(c.InstKey))
+	if c.Conc {
+		for _, sd := range c.Seeds {
+			stringx.Seed(sd[1])
+		}
+		var wg sync.WaitGroup
+		for i := range locks {
+			wg.Add(1)
+			go func(i int) {
+				defer wg.Done()
+				locks[i] = redis.NewRedisLock(store, c.Keys[c.InstKey[i]])
+			}(i)
+		}
+		wg.Wait()
+	}
 	for i := range locks {
+		if c.Conc {
+			break
+		}
+		for _, sd := range c.Seeds {
+			if int(sd[0]) == i {
+				stringx.Seed(sd[1])
+			}
+		}
 		locks[i] = redis.NewRedisLock(store, c.Keys[c.InstKey[i]])
+	}
+	for i := range locks {
 		// the random id is private; it is case data for the model (read, never written)
 		id, ok := lockID(locks[i], c.Keys[c.InstKey[i]])
 		if !ok {
